@@ -139,6 +139,33 @@ func (k c03) Run(c *rt.Ctx) {
 			stmt.HasLim, stmt.Start, stmt.Count = true, r.Intn(3), r.Range(1, 9)
 		}
 		query = stmt.Text(gen.Plain)
+	} else if c.Case%24 == 11 {
+		// documents between values that are no documents: a member read belongs to its own pair
+		c.Rec.Inc("json_members_between_non_documents")
+		docs := []string{`{"a":"x1","n":{"b":"y1"},"l":[1,2]}`, "plain", `{"a":"x3","n":{"b":"y3"}}`, "", `{"b":"only"}`, "7", `{"a":"x5","n":{"b":"y5"},"l":[3]}`, "[1,2]", `{"a":"","n":{}}`, "null", `{"a":"x1"}`}
+		var ps []refstore.Pair
+		for i, n := 0, r.Range(4, 40); i < n; i++ {
+			ps = append(ps, refstore.Pair{K: fmt.Sprintf("k%02d", i), V: docs[r.Intn(len(docs))]})
+		}
+		st = &gen.Store{Family: "docsmixed", Pairs: refstore.New(ps).Pairs()}
+		k0, v0 := gen.Key(), gen.Value()
+		pre := gen.Bin("^=", k0, gen.Str("k"))
+		doc := func() *gen.Node { return gen.Call("json", v0) }
+		a := func() *gen.Node { return gen.IndexS(doc(), "a") }
+		switch r.Intn(4) {
+		case 0:
+			stmt = &gen.Stmt{Kind: "select", Where: pre, Fields: []gen.Field{{E: k0}, {E: a(), Alias: "a"}}}
+		case 1:
+			stmt = &gen.Stmt{Kind: "select", Where: gen.And(pre, gen.Bin([]string{"=", "!="}[r.Intn(2)], a(), gen.Str([]string{"", "x1", "x3"}[r.Intn(3)]))), Fields: []gen.Field{{E: k0}, {E: v0}}}
+		case 2:
+			stmt = &gen.Stmt{Kind: "select", Where: pre, Fields: []gen.Field{{E: a(), Alias: "a"}, {E: gen.Call("count", gen.Int(1)), Alias: "c"}}, GroupBy: []string{"a"}}
+		default:
+			stmt = &gen.Stmt{Kind: "select", Where: pre, Fields: []gen.Field{{E: k0}, {E: gen.IndexS(doc(), "b"), Alias: "b"}, {E: gen.Call("strlen", a()), Alias: "n"}}}
+		}
+		if r.Chance(1, 3) && len(stmt.GroupBy) == 0 {
+			stmt.HasLim, stmt.Start, stmt.Count = true, r.Intn(3), r.Range(1, 9)
+		}
+		query = stmt.Text(gen.Plain)
 	} else if r.Chance(1, 14) {
 		// float group values that agree in six decimals, or are the two zeros: both modes form
 		// the same groups
